@@ -214,7 +214,8 @@ def run_sites(which, prefix, opts):
     bs = sanlog.parse_asan(btxt)
     info["baseline"] = {"asan": sorted({k for k, _ in bs if k.startswith("asan|")}),
                         "lsan": sorted({k for k, _ in bs if k.startswith("lsan|")}),
-                        "live": [int(v) for v in pf.get("live", "0,0,0,0").split(",")]}
+                        "live": [int(v) for v in pf.get("live", "0,0,0,0").split(",")],
+                        "heap_growth": max(0, int(pf.get("heap", "0/0").split("/")[1]) - int(pf.get("heap", "0/0").split("/")[0]))}
     return events, info
 
 
@@ -417,6 +418,11 @@ def classify(which, e, r, baseline=None):
                          % (live, ",".join(str(v) for v in baseline["live"])))
         if lsan or (pf.get("lsan", "0") != "0" and not baseline["lsan"]):
             leaks.append("LeakSanitizer: %s" % ", ".join(sorted({k.split("|", 2)[2] for k, _ in lsan})[:4]))
+        hp = pf.get("heap", "0/0").split("/")
+        grew = int(hp[1]) - int(hp[0])
+        if not leaks and grew > baseline.get("heap_growth", 0):
+            leaks.append("%d more malloc'ed bytes live after teardown than before the session (still reachable: neither "
+                         "H8-tracked nor reported by LeakSanitizer); unfaulted session: %d" % (grew, baseline.get("heap_growth", 0)))
         if leaks:
             out.append(("leak", "after teardown: %s (failed %s #%d in %s)" % ("; ".join(leaks), KINDS[e.kind], e.k, e.site_fn)))
     return out, ("violated" if out else "held")
@@ -553,8 +559,14 @@ def run(chk, tier, replay=None):
         return chk.finish(rule="replay of one k")
     scale = getattr(chk, "scale", 1.0)
     ex_all = True
-    _, _, ex = explore(chk, "enc", tier, enc_opts(), workers, scale=scale)
-    ex_all &= ex
+    part = os.environ.get("VERIF_C16_PART", "")  # development aid: "enc" or "dec" runs one half only (never exhaustive)
+    if part != "dec":
+        _, _, ex = explore(chk, "enc", tier, enc_opts(), workers, scale=scale)
+        ex_all &= ex
+    if part == "enc":
+        return chk.finish(rule="encoder half only (VERIF_C16_PART=enc)")
+    if part:
+        ex_all = False
     ivf = tiny_ivf(chk.dir)
     _, _, ex = explore(chk, "dec", tier, ["ivf=" + ivf, "threads=1", "frames=2", "hard_s=240", "cpu_s=60"], workers, scale=scale, label="dec-threads1")
     ex_all &= ex
